@@ -12,6 +12,7 @@ import (
 	"math/big"
 	"os"
 	"reflect"
+	"runtime"
 	"strconv"
 	"unsafe"
 )
@@ -131,7 +132,32 @@ func Thorough() bool              { return thorough }
 func Symbolic() bool              { return false }
 func Concretize(x int) int        { return x }
 func MayPanic(f func())           { f() }
-func AllocLimit(n int)            {}
+
+var allocBase uint64
+var allocArmed bool
+
+// AllocLimit(n): every make() in library code from now on must have an element count <= n.
+// Natively the total bytes allocated after this call are measured instead (see CheckAlloc).
+func AllocLimit(n int) {
+	var ms runtime.MemStats
+	runtime.ReadMemStats(&ms)
+	allocBase = ms.TotalAlloc
+	allocArmed = true
+}
+
+// CheckAlloc (native only): a forged count makes the decoder allocate far more than the input
+// and the limits justify; 64 MiB is three orders of magnitude above anything a harness needs.
+func CheckAlloc() {
+	if !allocArmed {
+		return
+	}
+	var ms runtime.MemStats
+	runtime.ReadMemStats(&ms)
+	if ms.TotalAlloc-allocBase > 64<<20 {
+		fmt.Printf("SYM-ALLOC-EXCEEDED %d bytes allocated\n", ms.TotalAlloc-allocBase)
+		os.Exit(19)
+	}
+}
 func Pick(quick, thorough_ int) int {
 	if thorough {
 		return thorough_
